@@ -621,6 +621,24 @@ class ResolveVectorNotationTransformer(Transformer):
 
         return new_index_range_map, pre_stmts, new_vars
 
+    @staticmethod
+    def _has_whole_array_intrinsics(expr):
+        """
+        Check if ``expr`` calls an intrinsic that takes a whole array
+        (``PRESENT``, array reductions, array inquiry functions)
+        and can therefore not be evaluated element by element.
+        """
+        inline_calls = [(_.name).lower() for _ in FindInlineCalls().visit(expr)]
+        # (array inquiry functions take the array itself, not its elements)
+        forbidden_ops = ['present', 'sum', 'size', 'shape', 'lbound', 'ubound']
+        if any(op in inline_calls for op in forbidden_ops):
+            return True
+        if HAVE_FP:
+            if any(redux_op in FindExpressions().visit(expr)
+                   for redux_op in Fortran2003.Intrinsic_Name.array_reduction_names):
+                return True
+        return False
+
     def visit_Assignment(self, stmt, **kwargs):  # pylint: disable=unused-argument
 
         # --- Step 1: Early exits ---
@@ -645,15 +663,8 @@ class ResolveVectorNotationTransformer(Transformer):
         create_loops = kwargs.get('create_loops', True)
 
         # Forbidden intrinsic calls in the RHS
-        inline_calls = [(_.name).lower() for _ in FindInlineCalls().visit(stmt.rhs)]
-        # (array inquiry functions take the array itself, not its elements)
-        forbidden_ops = ['present', 'sum', 'size', 'shape', 'lbound', 'ubound']
-        if any(op in inline_calls for op in forbidden_ops):
+        if self._has_whole_array_intrinsics(stmt.rhs):
             return stmt
-        if HAVE_FP:
-            if any(redux_op in FindExpressions().visit(stmt.rhs)
-                   for redux_op in Fortran2003.Intrinsic_Name.array_reduction_names):
-                return stmt
 
         # --- Step 2: Derive qualified ranges from shapes ---
         if self.derive_qualified_ranges:
@@ -848,6 +859,13 @@ class ResolveVectorNotationTransformer(Transformer):
     def visit_MaskedStatement(self, masked, **kwargs):  # pylint: disable=unused-argument
         # TODO: Currently limited to simple, single-clause WHERE stmts
         assert len(masked.conditions) == 1 and len(masked.bodies) == 1
+
+        # Whole-array intrinsics in the mask or in a masked assignment cannot be
+        # evaluated per element: leave the construct untouched (as for assignments)
+        assignments = FindNodes(ir.Assignment).visit((masked.bodies, masked.default))
+        if any(self._has_whole_array_intrinsics(expr)
+               for expr in as_tuple(masked.conditions) + tuple(a.rhs for a in assignments)):
+            return masked
 
         # Replace all unbounded ranges with bounded ranges based on array shape
         conditions = masked.conditions
